@@ -363,8 +363,27 @@ impl Prop for C12Prop {
         }
     }
     fn replay(&self, case: &Value, st: &mut Stats) -> Option<Verdict> {
-        let p = sut::consensus_deserialize(&hex::decode(case.get("program_hex")?.as_str()?).ok()?).ok()?;
         let e = sut::consensus_deserialize(&hex::decode(case.get("env_hex")?.as_str()?).ok()?).ok()?;
+        // a compiled case is replayed from its source (symbols and source lines matter to the
+        // hierarchical view)
+        if let (Some(src), Some(dn)) = (case.get("source").and_then(|s| s.as_str()), case.get("dialect").and_then(|s| s.as_str())) {
+            if let Some(d) = Dialect::parse(dn) {
+                if let Ok(compiled) = sut::compile_modern(src, d.sigil(), ModernOpts::cli_default(d.stepping()), "*verif*.clsp", &[]) {
+                    let lines: Vec<String> = src.lines().map(|l| l.to_string()).collect();
+                    return Some(match judge(&compiled.code, &e, Some(compiled.rich.clone()), &compiled.symbols, lines, st) {
+                        Err(mut v) => {
+                            if let Some(o) = v.case.as_object_mut() {
+                                o.insert("source".into(), json!(src));
+                                o.insert("dialect".into(), json!(dn));
+                            }
+                            Verdict::Violation(Box::new(v))
+                        }
+                        Ok(_) => Verdict::Pass,
+                    });
+                }
+            }
+        }
+        let p = sut::consensus_deserialize(&hex::decode(case.get("program_hex")?.as_str()?).ok()?).ok()?;
         Some(match judge(&p, &e, None, &HashMap::new(), vec![], st) {
             Err(v) => Verdict::Violation(Box::new(v)),
             Ok(_) => Verdict::Pass,
